@@ -63,6 +63,10 @@ ssize_t RawStreamProto::onRecvData(const void *data_ptr, size_t data_size)
 
         onRecvJson(js);
         return str_len;
+
+    } else if (str_len < 0) {   //! []{}不配对，再收多少数据也凑不成JSON，不能当作"数据不够"
+        LogNotice("brackets mismatch");
+        return -1;
     }
     return 0;
 }
